@@ -486,9 +486,23 @@ class Executor:
             return Closure(m2.group(1), [])
         if re.match(r'^[A-Za-z_:<>]+::[A-Z]\w*$', rhs):
             return EnumConst(rhs)
-        m2 = re.match(r'^(copy|move) (.+) as (\w+) \(IntToInt\)$', rhs)
+        m2 = re.match(r'^(copy|move|const) (.+) as (\w+) \(IntToInt\)$', rhs)
         if m2:
-            return self.operand(fr, m2.group(1) + ' ' + m2.group(2))   # value-preserving casts only (checked by callers' ranges)
+            v = self.operand(fr, m2.group(1) + ' ' + m2.group(2))
+            rng = RANGES.get(m2.group(3))
+            if rng is None:
+                raise NotImplementedError('cast to ' + m2.group(3))
+            lo_, hi_ = rng
+            width = hi_ - lo_ + 1
+            if is_int_value(simplify(v)):
+                x = simplify(v).as_long()
+                return IntVal((x - lo_) % width + lo_)
+            # wrap-around semantics of `as`: a single wrap suffices iff the source type spans at most one extra width
+            src_t = fr.fn.types.get(m2.group(2).strip(), '')
+            src_rng = RANGES.get(src_t)
+            if src_rng is None or src_rng[0] < lo_ - width or src_rng[1] > hi_ + width:
+                raise NotImplementedError('narrowing cast %s -> %s' % (src_t or '?', m2.group(3)))
+            return If(v > hi_, v - width, If(v < lo_, v + width, v))
         m2 = re.match(r'^\((.*)\)$', rhs)
         if m2 and not rhs.startswith('(*') and ': ' not in rhs:
             parts = [x for x in split_top(m2.group(1)) if x.strip()]
@@ -607,7 +621,40 @@ class Executor:
                     yield from self.checked(path, v, rng)
                     return
             if op == 'abs':
-                yield path, ('ret', If(a >= 0, a, -a))   # MIN.abs() overflow is asserted separately by rustc in debug
+                pt = path.fork()
+                pt.pc.append(a == lo)
+                if lo < 0 and self.feasible(pt):
+                    yield pt, ('panic', 'abs overflow')
+                path.pc.append(a != lo)
+                if self.feasible(path):
+                    yield path, ('ret', If(a >= 0, a, -a))
+                return
+            if op == 'unsigned_abs':
+                yield path, ('ret', If(a >= 0, a, -a))
+                return
+            if op == 'signum':
+                yield path, ('ret', If(a > 0, IntVal(1), If(a < 0, IntVal(-1), IntVal(0))))
+                return
+            if op in ('is_negative', 'is_positive'):
+                yield path, ('ret', a < 0 if op == 'is_negative' else a > 0)
+                return
+            if op in ('min', 'max'):
+                yield path, ('ret', If(a < b, a, b) if op == 'min' else If(a > b, a, b))
+                return
+            if op in ('saturating_add', 'saturating_sub', 'saturating_mul'):
+                v = a + b if op == 'saturating_add' else (a - b if op == 'saturating_sub' else self.prod(a, b))
+                yield path, ('ret', If(v > hi, IntVal(hi), If(v < lo, IntVal(lo), v)))
+                return
+            if op in ('wrapping_add', 'wrapping_sub', 'wrapping_neg', 'wrapping_mul', 'wrapping_abs'):
+                raise NotImplementedError('wrapping arithmetic is outside the integer encoding: ' + c)
+            if op == 'rem_euclid':
+                pz = path.fork()
+                pz.pc.append(Or(b == 0, And(b == -1, a == lo, lo < 0)))
+                if self.feasible(pz):
+                    yield pz, ('panic', 'rem_euclid by zero / overflow')
+                path.pc.append(Not(Or(b == 0, And(b == -1, a == lo, lo < 0))))
+                if self.feasible(path):
+                    yield path, ('ret', self.euclid(a, b)[1])
                 return
         if re.match(r'^<.+ as Try>::branch$', c):
             v = args[0]
